@@ -36,6 +36,7 @@ void rng_fill(rng_t *r, void *p, size_t n)
 
 /* ---------------- args / output ---------------- */
 uint64_t g_seed = 1, g_from = 0, g_count = 0;
+int g_noarch;
 const char *g_prop = "C00";
 static int g_argc; static char **g_argv;
 static const char *g_featout;
@@ -289,6 +290,7 @@ void out_init(int argc, char **argv)
         g_argc = argc; g_argv = argv;
         g_seed = (uint64_t) arg_int("--seed", 1);
         g_from = (uint64_t) arg_int("--from", 0);
+        g_noarch = (int) arg_int("--noarch", 0);
         g_count = (uint64_t) arg_int("--count", 100);
         g_prop = arg_str("--prop", "C00");
         g_featout = arg_str("--feat-out", NULL);
@@ -437,6 +439,7 @@ void disp_rearm_all(void)
 }
 void force_vcpu(const char *name)
 {
+        if (g_noarch) return;
         if (vcpu_set(name)) out_err("unknown virtual cpu %s", name);
         disp_rearm_all();
 }
@@ -447,7 +450,7 @@ static disp_t *find_disp(void *entry)
         out_err("entry %p is not a dispatched entry point", entry);
 }
 void *disp_target_of(void *entry) { return disp_target(find_disp(entry)); }
-int disp_is_resolved(void *entry) { disp_t *d = find_disp(entry); return *d->slot != d->initial; }
+int disp_is_resolved(void *entry) { if (g_noarch) return 0; disp_t *d = find_disp(entry); return *d->slot != d->initial; }
 
 /* ---------------- symbolizer over the nm listing written next to the binary (non-PIE) ---------------- */
 static struct symrec { uintptr_t a; char t; char *n; } *syms; static int nsyms = -1;
@@ -494,6 +497,14 @@ void *sym_addr(const char *name)
         syms_load();
         for (int i = 0; i < nsyms; i++) if (!strcmp(syms[i].n, name)) return (void *) syms[i].a;
         return NULL;
+}
+
+void *sym_addr_prefix(const char *prefix)
+{
+        syms_load();
+        void *found = NULL; size_t n = strlen(prefix);
+        for (int i = 0; i < nsyms; i++) if (!strncmp(syms[i].n, prefix, n)) { if (found) return NULL; found = (void *) syms[i].a; }       /* must be unique */
+        return found;
 }
 
 uintptr_t sym_next_global(uintptr_t a)
